@@ -26,6 +26,7 @@ let run (st : stream) (b : Buffer.t) : unit =
   | Ok nw ->
     let pr fmt = Printf.bprintf b fmt in
     pr "load OK\n";
+    pr "MCONSIDERED %b\n" (maintenance_considered nw);
     let ntours = next_int st in
     let tours = repeat ntours (fun () ->
       let ty = next_z st in let k = next_int st in
